@@ -76,6 +76,10 @@ instance : Monad Outcome where
   match o with
   | some a => ok a
   | none => err e
+@[inline] def map {α β} (f : α → β) : Outcome α → Outcome β
+  | ok a => ok (f a)
+  | err e => err e
+  | panic => panic
 /-- embedding of the specification's `Except Err` (a specification never panics) -/
 @[inline] def ofExcept {α} : Except Err α → Outcome α
   | .ok a => ok a
